@@ -215,6 +215,23 @@ theorem diff_append_one (old : List α) (x : α) :
   rw [this]
   simp [fuse]
 
+/-- **Nothing changed, nothing edited**: diffing a list against itself (the toplevel list of the
+cloned AST in `generate_auto_import_edits`) gives the empty script — so the only edit of an auto-import
+is the one import insert of `diff_append_one`. -/
+theorem diff_self (l : List α) : diff l l = some [] := by
+  have hfuel : defaultFuel l l = (l.length + l.length + 1) + 1 := by simp [defaultFuel]
+  have htrace : longestTrace (defaultFuel l l) l l = some (diag 0 l.length) := by
+    unfold longestTrace
+    rw [hfuel, snake_diag_self l l.length 0 [] (by omega)]
+    simp [bfs, lookupV]
+  unfold diff compute
+  rw [htrace]
+  simp only [Option.map_some, Option.some.injEq]
+  have hv : ValidTrace l l (diag 0 l.length) := trace_valid _ _ _ _ htrace
+  unfold computeWith
+  rw [sorted_eq_segs l l _ hv, segs_diag_self l l.length 0 (-1) (by omega)]
+  simp [fuse]
+
 /-- The range of that single edit: the empty range at the end of the last import. -/
 example (st en : Nat → Nat) (n : Nat) (x : Nat) (h : 0 < n) :
     rangeOf st en ((Int.ofNat n - 1 : Int), Change.insert [x] false) = (en (n - 1), en (n - 1)) := by
@@ -328,5 +345,80 @@ example (doc : Doc) (rnd : Nat → Text) (x : Nat) :
   obtain ⟨eds, h1, h2⟩ := auto_import_text doc [] rnd [] x
   refine ⟨eds, h1, ?_⟩
   rw [h2]; simp [locStart, off]
+
+/-- **Completion additional edits** (lib.rs:668-714): an item whose class name is already available in
+the document (imported from any module, or declared in it) or that belongs to the root module carries
+no edit — the document stays as it is; every other item carries exactly the auto-import edit, whose
+effect on the text is that of `auto_import_text` (a new import line behind the last import, never a
+change of an existing import — also when the module is already imported with other members). -/
+theorem completion_edits_text {ν : Type} [DecidableEq ν] (doc : Doc) (locs : List (Pos × Pos))
+    (rnd : α → Text) (imports : List α) (available : List ν) (isRoot : Bool) (n : ν) (x : α) :
+    ∃ eds, completionAdditionalEdits locs rnd imports available isRoot n x = some eds ∧
+      ((n ∈ available ∨ isRoot = true) → eds = [] ∧ applyEdits doc eds = flatten doc) ∧
+      (¬ (n ∈ available ∨ isRoot = true) → autoImportEdits locs rnd imports x = some eds) := by
+  unfold completionAdditionalEdits
+  by_cases h : n ∈ available ∨ isRoot = true
+  · have : (available.contains n || isRoot) = true := by
+      rcases h with h | h
+      · simp [h]
+      · simp [h]
+    simp only [this, ↓reduceIte]
+    exact ⟨[], rfl, fun _ => ⟨rfl, rfl⟩, fun hn => absurd h hn⟩
+  · have : (available.contains n || isRoot) = false := by
+      simp only [not_or] at h
+      simp [h.1, h.2]
+    obtain ⟨eds, he, _⟩ := auto_import_text doc locs rnd imports x
+    simp only [this]
+    exact ⟨eds, he, fun hp => absurd hp h, fun _ => he⟩
+
+/-- non-vacuity of both branches -/
+example : completionAdditionalEdits (α := Nat) [] (fun _ => []) [] ["Foo"] false "Foo" 1 = some [] := by
+  simp [completionAdditionalEdits]
+
+/-- **Lines and the flat text agree**: splitting a text into lines and joining them with `\n` gives
+the text back, so every text *is* a `Doc`. -/
+theorem flatten_splitLines (t : Text) : flatten (splitLines t) = t := flatten_splitLines_aux t
+
+/-- **`off` addresses lines**: for every document and every existing line `l`, the bytes of the flat
+text at offsets `[off (l,0), off (l,0) + |line l|)` are exactly line `l`, columns add to the offset, and
+the line lies inside the text — so `(line, col)` positions with `col ≤ |line l|` mean what LSP says. -/
+theorem off_line (doc : Doc) (l : Nat) (hl : l < doc.length) (c : Nat) :
+    ((flatten doc).drop (off doc (l, 0))).take doc[l].length = doc[l] ∧
+      off doc (l, c) = off doc (l, 0) + c ∧
+      off doc (l, 0) + doc[l].length ≤ (flatten doc).length := by
+  obtain ⟨h1, h2⟩ := off_line_aux doc l hl
+  exact ⟨h1, by simp [off], h2⟩
+
+example : off [[1, 2], [3]] (1, 1) = 4 := by decide
+
+/-- **Toplevel `Err` path** (ast_differ.rs:388-407): a module without toplevels that gets the toplevels
+`new` — for every `new`, fuel-free, the edits insert the renderings joined by "\n" at the end of the
+last old import (document start if there is none) and change nothing else. -/
+theorem toplevel_err_text (doc : Doc) (locsI : List (Pos × Pos)) (rnd : α → Text) (new : List α) :
+    ∃ s, diff [] new = some s ∧
+      applyEdits doc (toplevelEdits locsI [] rnd s) =
+        (flatten doc).take (off doc (if locsI.isEmpty then ((0, 0) : Pos) else locStop locsI (locsI.length - 1))) ++
+          (flatChunks (insChunks rnd new false) ++
+            (flatten doc).drop (off doc (if locsI.isEmpty then ((0, 0) : Pos) else locStop locsI (locsI.length - 1)))) := by
+  obtain ⟨tr, htr⟩ := longestTrace_total [] new
+  have hv := trace_valid _ [] new tr htr
+  have htr0 := validTrace_nil_old new tr hv
+  subst htr0
+  refine ⟨computeWith [] new [], by simp [diff, compute, htr], ?_⟩
+  unfold applyEdits
+  rw [toplevelEdits_off_empty]
+  have hl : Lay (fun _ : Nat => off doc (if locsI.isEmpty then ((0, 0) : Pos) else locStop locsI (locsI.length - 1)))
+      (fun _ : Nat => off doc (if locsI.isEmpty then ((0, 0) : Pos) else locStop locsI (locsI.length - 1))) :=
+    ⟨fun _ => Nat.le_refl _, fun _ _ _ => Nat.le_refl _⟩
+  have := (text_lift (flatten doc) _ _ hl rnd [] new [] hv).1
+  rw [this]
+  simp [expChunks, segChunks, bnd, dslice, slice, flatChunks]
+
+/-- With at least one old toplevel, toplevel changes are positioned exactly like import changes
+(`compute_toplevel_diff` only ever produces a `Replace` of the whole toplevel), so `text_lift` /
+`import_edits_text` apply verbatim to the toplevel list. -/
+theorem toplevel_edits_eq (locsI locsT : List (Pos × Pos)) (hne : locsT ≠ []) (rnd : α → Text) (s : Script α) :
+    toplevelEdits locsI locsT rnd s = importEdits locsT rnd s :=
+  toplevelEdits_off_nonempty [] locsI locsT hne rnd s
 
 end SamVerif.Differ
